@@ -80,7 +80,7 @@ observe.wants_big_files = True
 _shard = kcommon.make_run(__name__, "observe", extra_ops=kcommon.long_comment_ops)
 
 
-_chain = kcommon.make_chain_run(__name__, "observe", extra_ops=kcommon.long_comment_ops)
+_chain = kcommon.make_chain_run(__name__, "observe", extra_ops=kcommon.long_comment_ops, faults=True)
 
 
 def run(tier):
